@@ -324,3 +324,22 @@ Proof.
   { unfold tot. apply pend_ext; [reflexivity|]. intros r _. unfold effc. rewrite Heff. reflexivity. }
   rewrite E. lia.
 Qed.
+
+(** under the documented preconditions ([hp_no_overflow]) exactly once: #retire p = #dispose p *)
+Corollary hp_destroy_disposes_all_exact c ths cf :
+  Conc.reach (init_cfg c ths) cf -> quiescent (Conc.trace cf) ->
+  List.length (g_list (Conc.shared cf)) <= cP c -> cH c * cP c < cR c -> retire_once (Conc.trace cf) ->
+  forall g' es, destroy c (Conc.shared cf) = (g', es) ->
+  let tr' := Conc.trace cf ++ Conc.tag (List.length ths) es in
+  forall p, cnt "retire" p tr' = cnt "dispose" p tr'.
+Proof.
+  intros Hr Hq H1 H2 H3 g' es Hd tr' p.
+  destruct (hp_destroy_disposes_all c ths cf Hr Hq g' es Hd) as (Hb & _). fold tr' in Hb. rewrite (Hb p).
+  destruct (reach_inv _ _ _ Hr) as (a & HI).
+  assert (Hall : forall r, r < List.length (g_recs (Conc.shared cf)) -> In r (g_list (Conc.shared cf))).
+  { intros r H. destruct (i_unl _ _ _ _ HI r H) as [Hi|(t & Hi)]; [exact Hi|].
+    destruct (i_idle _ _ _ _ HI t (Hq t)) as (E1 & _). rewrite E1 in Hi. destruct Hi. }
+  destruct (seq_destroy c (Conc.shared cf) (i_list_lt _ _ _ _ HI) Hall g' es Hd) as (_ & Hod & _).
+  unfold tr'. rewrite !cnt_app, !cnt_tag_any. destruct (Hod p) as (_ & ->).
+  rewrite (hp_no_overflow c ths cf Hr H1 H2 H3 p). lia.
+Qed.
